@@ -247,6 +247,29 @@ def rule_registration(ctx, rid="R20.4"):
     return r
 
 
+def rule_selection_total(ctx, rid="R20.7"):
+    """validator_for on any schema object/boolean whose $schema is a string (URI or not) returns a class; it does not raise."""
+    from ..interp import Interp
+    from .c03 import run_entry
+    prog = ctx.prog
+    r = ctx.rule(rid, "validator_for returns a class for every schema object or boolean, whatever string $schema holds (it never raises)", floor=1)
+    I = Interp(prog, "draft7")
+    f = prog.func("validators.validator_for")
+    eff = run_entry(I, f, [I.schema_av])
+    found = {}
+    for x in eff:
+        found.setdefault(x.key(), x)
+    if not found:
+        r.ok(site(f), "no exception effect")
+    else:
+        r.pending(site(f), "escapes: %s" % sorted({x.exc for x in found.values()}))
+    for key, x in sorted(found.items()):
+        r.findings.append({"rule": r.id, "key": "%s|%s" % (r.id, key), "site": site(x.func, x.node),
+                           "msg": "%s can escape validator_for: %s%s" % (x.exc, x.op, (" -- operand %s" % x.operand) if x.operand else ""),
+                           "detail": {"call_chain": " <- ".join(reversed(x.chain)) if x.chain else ""}})
+    return r
+
+
 def run(ctx):
     ctx.explanation = (
         "C20: R20.1 CFG edge rules on validator_for (default edges, registry lookup, warning exactly on the unknown edge); "
@@ -263,3 +286,4 @@ def run(ctx):
     # R20.6: the registry's key normalisation (empty fragment dropped, nothing else): URIDict
     from .c15 import rule_uridict
     rule_uridict(ctx, "R20.6")
+    rule_selection_total(ctx)
